@@ -124,7 +124,7 @@ def run(ctx):
             g2s = ctx.instance("G2s_C30", "DirtyPagesImpl", GEN_W, dict(tiny, MaxOps=4))
             split(h for h in ctx.generate(g2s, workers=4, timeout=2400) if len(h) == 5)
         g3 = ctx.instance("G3_C30", "DirtyPagesImpl", GEN_ALL, dict(full, MaxOps=6))
-        split(ctx.generate(g3, simulate=800 if ctx.thorough else 150, depth=8))
+        split(ctx.generate(g3, simulate=800 if ctx.thorough else 80, depth=8))
         if ctx.thorough:
             g1 = ctx.instance("G1_C30", "DirtyPagesImpl", GEN_ALL, dict(full, Variants={"tmp"}, TruncSizes=set(), MaxOps=2))
             writes2 = [h[1:] for h in ctx.generate(g1, workers=4, timeout=1200) if all(o["ev"] == "write" for o in h[1:])]
@@ -181,11 +181,11 @@ def run(ctx):
 
     if ivl:
         t1 = ctx.drive(binp, ["--mode", "ivl", "--script", ivl], name="trace-ivl")
-        ctx.judge("PosixFileTrace", t1, "trace_base.cfg", cons, mutate=mutate, label="ivl", chunk_events=6000,
+        ctx.judge("PosixFileTrace", t1, "trace_base.cfg", cons, mutate=mutate, label="ivl", chunk_events=10000,
                   nontrivial=lambda ls: sum(1 for s in ls if '"ev":"add"' in s) >= 2)
     if wfs:
         t2 = ctx.drive(binp, ["--mode", "wfs", "--script", wfs], name="trace-wfs", timeout=2400)
-        ctx.judge("PosixFileTrace", t2, "trace_base.cfg", cons, mutate=mutate, label="wfs", chunk_events=1500,
+        ctx.judge("PosixFileTrace", t2, "trace_base.cfg", cons, mutate=mutate, label="wfs", chunk_events=4000,
                   nontrivial=lambda ls: sum(1 for s in ls if '"ev":"write"' in s) >= 2 and any('"ev":"stored"' in s for s in ls))
     ctx.rule = ("executions = histories of DirtyPagesImpl.tla (writes over offsets 0..8 x lengths 1..5 with chunk limit 4, "
                 "truncations, flushes, re-opens): G2 one witness per (interval-list shape, chunk shape, size, buffered set, last "
